@@ -230,8 +230,8 @@ class C04(PropertyCheck):
     # next to powers of two; everything else about them is drawn as for the small cases.
     SIZE_BUCKETS = ((101, 127, 128, 129, 255, 256, 257, 300), (301, 511, 512, 513, 600),
                     (601, 1000, 1023, 1024, 1025, 2000), (2001, 2047, 2048, 2049, 4099))
-    BATCH_BUCKETS = ((8, 16, 17, 33), (64, 65, 101, 130))
-    STEP_BUCKETS = ((16, 17, 31, 32, 33), (63, 64, 65, 101, 130))
+    BATCH_BUCKETS = ((8, 16, 17, 33), (64, 65, 100), (101, 128, 130))
+    STEP_BUCKETS = ((16, 17, 31, 32, 33), (63, 64, 65, 100), (101, 127, 128, 130))
     # (width or Kp, V) with the product next to 2^13, 2^15, 2^17
     CAND_BUCKETS = (((8, 1024), (16, 512), (16, 513), (15, 546), (31, 264)),
                     ((32, 1024), (33, 993), (64, 512), (16, 2048), (127, 258)),
@@ -275,9 +275,7 @@ class C04(PropertyCheck):
             V = rng.choice([2, 3, 5])
             width = rng.choice([1, 2, 3, 5, 8])
             batch = rng.choice([None, None, 2, 3])
-            lm["cap"] = T + 2
-            if T > 33:
-                qbits = 8           # |score| <= 30 T: sums stay float32-exact on the 2^-8 grid
+            lm["cap"] = T + 2       # |score| <= 30 T < 2^12: every sum stays float32-exact on the 2^-12 grid
         else:
             width, V = rng.choice(bucket)
             T = rng.choice([2, 2, 3])
@@ -309,11 +307,21 @@ class C04(PropertyCheck):
             lm.update({"double": rng.random() < 0.2, "view": rng.random() < 0.15})
             via = rng.choice(["instance", "subclass"])
         zeros = lm.get("kind", "hash") not in ("lookup", "rec") and rng.random() < 0.15
+        hard = False
         if eos is not None and lm.get("kind") != "lookup":
             # elements finish at different depths (early ones stay frozen for the rest of a long search)
             force = [rng.choice([None, None, 0, 1, 2, 3, T // 2, T - 1]) for _ in range(n)]
+        if dim == "steps" and lm.get("kind") != "lookup" and rng.random() < 0.3:
+            # no step limit at all: the search runs until eos, which every element is forced to emit only
+            # after about as many steps
+            V = max(V, 3)
+            eos = rng.randrange(V)
+            force = [max(1, T - rng.choice([0, 1, 2, 5])) for _ in range(n)]
+            hard, zeros, T = True, False, None
+            lm["cap"] += 3
+            lm["eos_late"] = True
         return self._search_case(rng, V, T, width, eos, fa, batch, zeros=zeros, qbits=qbits, force=force,
-                                 via=via, pad=self._pad_choice(rng, V, eos), lm=lm)
+                                 hard=hard, via=via, pad=self._pad_choice(rng, V, eos), lm=lm)
 
     def _size_advance_case(self, rng, dim, bucket):
         """One large `beam_search_advance` case; the tensors are regenerated from `gen.seed` (`_adv_data`)
